@@ -35,6 +35,8 @@ CFG = {
         "Swat4.C14.refreshedAt_changes_only_by",
         "Swat4.C14.report_rejected_unchanged",
         "Swat4.C14.renew_rejected_unchanged",
+        "Swat4.C14.facts_frontend_status",
+        "Swat4.C14.facts_frontend_liveness",
     ],
     "shards": (4, 16),
     "nontrivial": _nontrivial,
